@@ -142,8 +142,15 @@ class DataDir(object):
         return self._delete_files(filenames=filenames)
 
     def _check_writeprotected(self, filename, accessmode):
-        if accessmode != 'r' and filename in self._protectedpaths:
-            raise OSError(f'Cannot modify protected file "{filename}"')
+        if accessmode != 'r':
+            # compare locations, not spellings: 'x', './x', Path('x'),
+            # 'sub/../x', and anything inside a protected directory
+            base = self._path.resolve()
+            target = (base / filename).resolve()
+            for protectedpath in self._protectedpaths:
+                protectedpath = base / protectedpath
+                if target == protectedpath or protectedpath in target.parents:
+                    raise OSError(f'Cannot modify protected file "{filename}"')
 
     # FIXME overwrite parameter?
     @contextmanager
